@@ -99,6 +99,8 @@ func init() {
 			r.Try(func() { ruleNoInPlaceReuse(w, r, "R19.5") })
 			r.Rule("R19.6", 1, "the degree recomputation counts every edge")
 			r.Try(func() { ruleDegreeCountsEveryEdge(w, r, "R19.6") })
+			r.Rule("R19.9", 2, "sibling agreement of the adds: AddProvider and AddProviderDeferred replace the node's edge list and dependency list on every accepting path (a replacement never inherits the edges of what it replaces)")
+			r.Try(func() { ruleAddReplacesEdges(w, r, "R19.9") })
 			r.Rule("R19.8", 4, "a rejected add leaves the graph as it was: no exit is reachable after deleting a node without sweeping the edge table or rebuilding the group links")
 			r.Try(func() { ruleDeletedNodesUnlinked(w, r, "R19.8") })
 			r.Rule("R19.7", 1, "the edge table and the nodes' own dependency lists describe the same edges")
